@@ -147,7 +147,7 @@ func solve(query string, dir string, name string, timeoutS int) solveResult {
 	}
 	r := runSolver(context.Background(), solvers[0], file, first)
 	if r.status != "unknown" {
-		return r
+		return crossCheckResult(r, file, timeoutS)
 	}
 	ctx, cancel := context.WithCancel(context.Background())
 	defer cancel()
@@ -163,7 +163,8 @@ func solve(query string, dir string, name string, timeoutS int) solveResult {
 		outs = append(outs, rr.solver+": "+firstLine(rr.out))
 		if rr.status != "unknown" {
 			rr.secs = time.Since(start).Seconds()
-			return rr
+			cancel()
+			return crossCheckResult(rr, file, timeoutS)
 		}
 		best = rr
 	}
@@ -291,4 +292,55 @@ func sliceRelevant(hyps []string, goal string, vc *VC) []string {
 		}
 	}
 	return out
+}
+
+
+// Cross-check (thorough tier): an `unsat` answer is re-asked of a solver of a
+// different family (cvc5 for the z3s, z3-new for cvc5). Agreement and
+// "unknown" are counted; a `sat` answer from the second solver withdraws the
+// discharge (the obligation is reported undischarged, with both answers).
+var crossCheck bool
+var crossMu sync.Mutex
+var crossAgree, crossUnknown, crossDisagree int
+
+func crossCheckResult(r solveResult, file string, timeoutS int) solveResult {
+	if !crossCheck || r.status != "unsat" {
+		return r
+	}
+	var other SolverCfg
+	found := false
+	for _, s := range solvers {
+		if strings.HasPrefix(r.solver, "z3") != strings.HasPrefix(s.Name, "z3") {
+			other, found = s, true
+			break
+		}
+	}
+	if !found {
+		return r
+	}
+	t := timeoutS
+	if t > 10 {
+		t = 10
+	}
+	rr := runSolver(context.Background(), other, file, t)
+	crossMu.Lock()
+	defer crossMu.Unlock()
+	switch rr.status {
+	case "unsat":
+		crossAgree++
+	case "sat":
+		crossDisagree++
+		r.status = "unknown"
+		r.out = fmt.Sprintf("solver disagreement: %s says unsat, %s says sat", r.solver, rr.solver)
+		r.solver = "disagreement"
+	default:
+		crossUnknown++
+	}
+	return r
+}
+
+func crossStats() map[string]int {
+	crossMu.Lock()
+	defer crossMu.Unlock()
+	return map[string]int{"agree": crossAgree, "second_solver_unknown": crossUnknown, "disagree": crossDisagree}
 }
